@@ -1,9 +1,189 @@
+(* C08 -- CRAM codecs and integer codings decode exactly what was encoded, per the spec.
+   Property theorems only; each is closed by [exact] of a lemma proved in theories/Cram and is
+   followed by Print Assumptions.  Models: NV.Cram.Itf8 / Ltf8 / Vlq (bit-exact models of
+   noodles-cram io/{reader,writer}/num/*.rs) and NV.Cram.Rans4x8 (faithful model of the rANS 4x8
+   order-0 ENCODER of noodles, and an INDEPENDENT decoder for orders 0 and 1 written from the
+   CRAM codecs specification).
+
+   PARTIAL: proved in full for the three integer codings; for rANS 4x8 order 0 the entropy-coded
+   payload (states, renormalisation bytes, 4-way interleave) is proved to decode to the input for
+   every byte string under the side conditions the proof forces; the serialisation of the
+   frequency table is NOT proved (it is wrong in the real code for three input classes, see the
+   [_refuted] lemmas) and order 1, rANS Nx16, the arithmetic coder, fqzcomp, the name tokenizer
+   and gzip/bzip2/lzma have no theorem (implementation-side oracle only). *)
 From Coq Require Import List NArith ZArith.
-From NV Require Import Cram.Bytes Cram.Itf8 Cram.Ltf8 Cram.Vlq Cram.IntProofs.
+From NV Require Import Cram.Bytes Cram.Itf8 Cram.Ltf8 Cram.Vlq Cram.IntProofs Cram.Rans4x8 Cram.Rans4x8Proofs.
 Import ListNotations.
 Open Scope N_scope.
 
+(* ---------------- integer codings: every representable value ---------------- *)
+
+(* ITF8, all of i32: reading what was written gives the value back and leaves the rest untouched *)
 Theorem c08_itf8_roundtrip : forall n rest,
   (-2147483648 <= n < 2147483648)%Z -> read_itf8 (write_itf8 n ++ rest) = Some (n, rest).
 Proof. exact itf8_roundtrip. Qed.
 Print Assumptions c08_itf8_roundtrip.
+
+Theorem c08_itf8_length : forall n, length (write_itf8 n) = itf8_size n.
+Proof. exact itf8_length. Qed.
+Print Assumptions c08_itf8_length.
+
+(* every proper prefix of an encoding is reported as UnexpectedEof *)
+Theorem c08_itf8_truncated : forall n k,
+  (-2147483648 <= n < 2147483648)%Z -> (k < length (write_itf8 n))%nat ->
+  read_itf8 (firstn k (write_itf8 n)) = None.
+Proof. exact itf8_truncated. Qed.
+Print Assumptions c08_itf8_truncated.
+
+(* the reader ignores the high nibble of the fifth byte (leniency of the code, recorded) *)
+Theorem c08_itf8_fifth_byte_high_nibble : forall b0 b1 b2 b3 b4 h rest,
+  240 <= b0 -> b4 < 16 -> h < 16 ->
+  itf8_dec (b0 :: b1 :: b2 :: b3 :: (16 * h + b4) :: rest) = itf8_dec (b0 :: b1 :: b2 :: b3 :: b4 :: rest).
+Proof. exact itf8_fifth_byte_high_nibble. Qed.
+Print Assumptions c08_itf8_fifth_byte_high_nibble.
+
+(* LTF8, all of i64 *)
+Theorem c08_ltf8_roundtrip : forall n rest,
+  (-9223372036854775808 <= n < 9223372036854775808)%Z -> read_ltf8 (write_ltf8 n ++ rest) = Some (n, rest).
+Proof. exact ltf8_roundtrip. Qed.
+Print Assumptions c08_ltf8_roundtrip.
+
+Theorem c08_ltf8_length : forall n, length (write_ltf8 n) = ltf8_size n.
+Proof. exact ltf8_length. Qed.
+Print Assumptions c08_ltf8_length.
+
+(* uint7, all of u32 (and the writer's 5-byte buffer never underflows) *)
+Theorem c08_uint7_roundtrip : forall n rest,
+  n < 4294967296 -> read_uint7 (write_uint7 n ++ rest) = U7Ok n rest.
+Proof. exact uint7_roundtrip. Qed.
+Print Assumptions c08_uint7_roundtrip.
+
+Theorem c08_uint7_length : forall n, n < 4294967296 -> length (write_uint7 n) = uint7_size n.
+Proof. exact uint7_length. Qed.
+Print Assumptions c08_uint7_length.
+
+(* ---------------- rANS 4x8 ---------------- *)
+
+(* dec_step (enc_step x s) = (s, x): slot and state are both recovered; table constant 4096 *)
+Theorem c08_rans_step_inverse : forall x f c,
+  0 < f -> c + f <= 4096 ->
+  (enc_step x f c) mod 4096 = c + x mod f /\ spec_advance (enc_step x f c) c f = x.
+Proof. exact rans_step_inverse. Qed.
+Print Assumptions c08_rans_step_inverse.
+
+(* the step maps the renormalised interval [2^11 f, 2^19 f) into I = [2^23, 2^31): no u32 overflow *)
+Theorem c08_rans_step_range : forall x f c,
+  0 < f -> c + f <= 4096 -> 2048 * f <= x -> x < 524288 * f ->
+  LOWER_BOUND <= enc_step x f c < 2147483648.
+Proof. exact rans_step_range. Qed.
+Print Assumptions c08_rans_step_range.
+
+(* the bytes pushed by state_renormalize are exactly the bytes RansRenorm pops, restoring the state *)
+Theorem c08_rans_renorm_inverse : forall s f stack s1 stack1,
+  LOWER_BOUND <= s < 2147483648 -> f <= 4096 ->
+  enc_renorm 5 s f stack = Some (s1, stack1) ->
+  exists em, stack1 = em ++ stack /\
+    (forall tail, spec_renorm s1 (em ++ tail) = Some (s, tail)) /\
+    2048 * f <= s1 < 524288 * f.
+Proof. exact rans_renorm_inverse. Qed.
+Print Assumptions c08_rans_renorm_inverse.
+
+Theorem c08_rans_renorm_terminates : forall s f stack,
+  0 < f -> s < 4294967296 -> exists s1 stack1, enc_renorm 5 s f stack = Some (s1, stack1).
+Proof. exact enc_renorm_terminates. Qed.
+Print Assumptions c08_rans_renorm_terminates.
+
+(* RansGetSymbolFromFreq inverts the cumulative table on every slot *)
+Theorem c08_rans_symbol_lookup : forall F x s0 c0 r,
+  (x < length F)%nat -> r < nth x F 0 ->
+  spec_symbol F (sumN (firstn x F) + r) s0 c0 = (s0 + N.of_nat x, c0 + sumN (firstn x F)).
+Proof. exact spec_symbol_correct. Qed.
+Print Assumptions c08_rans_symbol_lookup.
+
+(* every table the encoder builds sums to at most 4095 < 4096 *)
+Theorem c08_rans_normalize_sum : forall raw F, normalize_frequencies raw = Some F -> sumN F <= 4095.
+Proof. exact normalize_sum_le. Qed.
+Print Assumptions c08_rans_normalize_sum.
+
+(* 4-way interleaved symbol loop, any table: decoded by the independent decoder to the input *)
+Theorem c08_rans4x8_o0_core_roundtrip : forall src F,
+  table_ok F src ->
+  exists st stack,
+    enc_symbols F (cumulative F) src = Some (st, stack) /\
+    length st = 4%nat /\ Forall state_ok st /\
+    forall tail, spec_decode0_loop (length src) F st (stack ++ tail) = Some (src, tail).
+Proof. exact rans4x8_o0_core_roundtrip. Qed.
+Print Assumptions c08_rans4x8_o0_core_roundtrip.
+
+(* ... and with the encoder's own table, for EVERY byte string, under [no_overflow]:
+   normalize_frequencies does not panic (F8, F8b) and leaves every occurring symbol a non-zero
+   frequency *)
+Theorem c08_rans4x8_o0_payload_roundtrip_partial : forall src F,
+  Forall (fun x => x < 256) src -> no_overflow src F ->
+  exists st stack,
+    enc_symbols F (cumulative F) src = Some (st, stack) /\
+    forall tail, spec_decode0_loop (length src) F st (stack ++ tail) = Some (src, tail).
+Proof. exact rans4x8_o0_payload_roundtrip. Qed.
+Print Assumptions c08_rans4x8_o0_payload_roundtrip_partial.
+
+(* the full statement for rANS 4x8 order 0, NOT proved: it additionally needs the frequency-table
+   serialisation round trip (freq_table_roundtrip), which is false in the real code for the three
+   classes below and is only tested (L2/L3) elsewhere *)
+Definition known_class_o0 (src : list N) : Prop :=
+  src = [] \/
+  (~ In 0 src /\ In 1 src) \/                                   (* first table symbol is 1 *)
+  (exists s, 1 <= s /\ s < 255 /\ forall y, s - 1 <= y -> y <= 255 -> In y src).  (* run reaching 255 *)
+
+Definition c08_rans4x8_o0_roundtrip_full_statement : Prop :=
+  forall src F, Forall (fun x => x < 256) src -> no_overflow src F -> ~ known_class_o0 src ->
+    exists bytes, encode_o0 src = EncOk bytes /\ spec_decode bytes = Some src.
+
+(* ---------------- the known defect classes are real in the faithful model ---------------- *)
+
+Theorem c08_normalize_u32_overflow_refuted :
+  normalize_frequencies (upd zeros256 65 1048833) = None /\
+  normalize_frequencies (upd zeros256 65 1048832) <> None.
+Proof. exact normalize_u32_overflow_refuted. Qed.
+Print Assumptions c08_normalize_u32_overflow_refuted.
+
+Theorem c08_normalize_u16_underflow_refuted :
+  normalize_frequencies (repeat 4128 127 ++ [3871] ++ repeat 1 128) = None.
+Proof. exact normalize_u16_underflow_refuted. Qed.
+Print Assumptions c08_normalize_u16_underflow_refuted.
+
+Theorem c08_rans4x8_o0_first_symbol_1_refuted :
+  exists src, (exists b, encode_o0 src = EncOk b) /\
+              spec_decode (bytes_of_result (encode_o0 src)) <> Some src.
+Proof. exact rans4x8_o0_first_symbol_1_refuted. Qed.
+Print Assumptions c08_rans4x8_o0_first_symbol_1_refuted.
+
+Theorem c08_rans4x8_o0_run_to_255_refuted :
+  exists src, (exists b, encode_o0 src = EncOk b) /\
+              spec_decode (bytes_of_result (encode_o0 src)) <> Some src.
+Proof. exact rans4x8_o0_run_to_255_refuted. Qed.
+Print Assumptions c08_rans4x8_o0_run_to_255_refuted.
+
+Theorem c08_rans4x8_o0_empty_refuted :
+  (exists b, encode_o0 [] = EncOk b) /\ spec_decode (bytes_of_result (encode_o0 [])) <> Some [].
+Proof. exact rans4x8_o0_empty_refuted. Qed.
+Print Assumptions c08_rans4x8_o0_empty_refuted.
+
+(* ---------------- non-vacuity ---------------- *)
+
+Example c08_itf8_examples :
+  write_itf8 1877 = [135; 85] /\ write_itf8 (-1) = [255; 255; 255; 255; 15] /\
+  read_itf8 [247; 85; 153; 102; 130; 9] = Some (1968805474%Z, [9]).
+Proof. vm_compute. repeat split. Qed.
+
+Example c08_uint7_example : write_uint7 4294967295 = [143; 255; 255; 255; 127].
+Proof. vm_compute. reflexivity. Qed.
+
+(* [no_overflow] and [table_ok] are satisfiable, and the whole pipeline runs end to end *)
+Example c08_no_overflow_example :
+  let src := [0; 2; 0; 2; 7; 7; 7; 9; 0; 200; 255; 0; 2] in
+  exists F, no_overflow src F /\ spec_decode (bytes_of_result (encode_o0 src)) = Some src.
+Proof.
+  eexists. split; [split; [vm_compute; reflexivity|]|vm_compute; reflexivity].
+  intros x Hx. cbn [In] in Hx.
+  repeat (destruct Hx as [Hx|Hx]; [subst x; vm_compute; reflexivity|]). destruct Hx.
+Qed.
